@@ -1552,6 +1552,12 @@ def _rule_fd_accounting(ctx: Ctx, r: LockRoles) -> None:
         ee = [e for e in g.succ[o.id] if e.label == 'exc']
         reached = reach(g, [], start_edges=ee)
         bad = [s for s in stores if s.id in reached]
+        if bad:
+            # reachable in the graph is not yet reachable on a path: `fd = _NO_FD` ... `if fd is _NO_FD: return` decides it
+            from ..paths import envs_at as _envs_at
+            wf = find_path(g, [], bad, start_edges=ee, init_envs=_envs_at(g, o))
+            if wf is None:
+                bad = []
         ctx.check('C12-R5', f'{r.os_acquire.name}: a failing {norm(o.ast)} records nothing', g.loc(o), not bad,
                   'no descriptor recorded', 'descriptor recorded although open failed',
                   construct=construct_key(r.os_acquire.qualname, 'store after failed open'))
